@@ -89,6 +89,11 @@ class Future:
     def cancel(self):
         self._state = FutureState.CANCELLED
 
+    def exception(self) -> Optional[BaseException]:
+        if self._state != FutureState.FINISHED:
+            raise FutureStateError(f'Attempted to get exception from a {self._state} future.')
+        return self._ex
+
     def result(self) -> Any:
         if self._state != FutureState.FINISHED:
             raise FutureStateError(f'Attempted to get result from a {self._state} future.')
@@ -388,11 +393,13 @@ class ProcessRunner(Runner, ABC):
             task = self.future_to_task.pop(future)
             if future.cancelled:
                 continue
-            try:
-                task_result = future.result()
-            except BaseException as ex:
+            # (Avoid catching exceptions here: a KeyboardInterrupt raised in
+            # this thread must not be mistaken for a failure of the task.)
+            ex = future.exception()
+            if ex is not None:
                 yield (task, ex)
             else:
+                task_result = future.result()
                 self.results_map[task] = task_result
                 yield (task, task_result.meta)
 
